@@ -93,7 +93,7 @@ def r1(ctx):
 
 
 @rule("C01-R3", "C01", 2, "try_new_segment(offset, size): the segment lies inside the released extent - offset <= ptr_offset = alignUp(8, offset), data_offset = ptr_offset + 8, "
-      "data_offset + data_size = offset + size, data_size >= min_segment_size", also=("C10",))
+      "data_offset + data_size = offset + size, data_size >= min_segment_size (C20: a release too small to become a segment is never linked)", also=("C10", "C20"))
 def r3(ctx):
     OFF, SIZE = ("param", 1, "offset"), ("param", 2, "size")
     for fl in FLAVOURS:
